@@ -114,6 +114,7 @@ func TestC08Hops(t *testing.T) {
 	rec.Require("fam-untruncated", "fam-partly-stripped", "fam-zero-tail-beyond-ext", "fam-nonzero-tail-beyond-ext", "fam-post-nul", "fam-empty-for-zero", "fam-raw-signed", "hop-without-dialect", "hop-with-dialect", "v1")
 	dpool := pool(t)
 	evid.Check(t, rec, evid.N(60000, 250000), func(t *rapid.T) {
+		readBufSize = 512
 		di := drawDialect(t, dpool)
 		var f ref.Frame
 		var lay *ref.Layout
@@ -231,6 +232,7 @@ func TestC08BatchForward(t *testing.T) {
 	rec.Require("longer-than-window", "with-dialect", "without-dialect")
 	dpool := pool(t)
 	evid.Check(t, rec, evid.N(8000, 40000), func(t *rapid.T) {
+		drawBufSize(t)
 		di := drawDialect(t, dpool)
 		withDialect := rapid.Bool().Draw(t, "dialect")
 		n := rapid.IntRange(2, 8).Draw(t, "n")
